@@ -425,12 +425,12 @@ Proof.
   - rewrite LP.on_response_noeff by exact E. constructor; assumption.
 Qed.
 
-Lemma LI1_next : forall c ls, LI1 c ls -> LI1 c (fst (L.next_action c ls 0)).
+Lemma LI1_next : forall c ls t, LI1 c ls -> LI1 c (fst (L.next_action c ls t)).
 Proof.
-  intros c ls [H1 H2 H3]. pose proof (LP.next_action_shape c ls 0) as Sh.
-  assert (Hi : LP.Inv c (fst (L.next_action c ls 0))) by (apply (LP.step_inv c ls (L.ENext 0) H1)).
-  assert (Same : L.resps (fst (L.next_action c ls 0)) = L.resps ls /\
-                 L.queried (fst (L.next_action c ls 0)) = L.queried ls).
+  intros c ls t [H1 H2 H3]. pose proof (LP.next_action_shape c ls t) as Sh.
+  assert (Hi : LP.Inv c (fst (L.next_action c ls t))) by (apply (LP.step_inv c ls (L.ENext t) H1)).
+  assert (Same : L.resps (fst (L.next_action c ls t)) = L.resps ls /\
+                 L.queried (fst (L.next_action c ls t)) = L.queried ls).
   { inversion Sh; subst.
     - match goal with H : LP.same7 _ _ |- _ => destruct H as (_ & _ & Q & Rr & _) end. tauto.
     - tauto.
@@ -859,13 +859,13 @@ Proof.
   - apply IH; [exact H2 | intros x Hx; apply Hd; right; exact Hx].
 Qed.
 
-Lemma next_send_full : forall c ls ls' p,
-  L.next_action c ls 0 = (ls', L.ASend p) ->
+Lemma next_send_full : forall c ls t ls' p,
+  L.next_action c ls t = (ls', L.ASend p) ->
   (exists d, L.cands ls = (d, p) :: L.cands ls') /\
-  L.pend ls' = L.premove p (L.pend ls) ++ [(p, 0)] /\ L.queried ls' = L.queried ls /\
+  L.pend ls' = L.premove p (L.pend ls) ++ [(p, t)] /\ L.queried ls' = L.queried ls /\
   L.resps ls' = L.resps ls.
 Proof.
-  intros c ls ls' p E. pose proof (LP.next_action_shape c ls 0) as Sh. rewrite E in Sh. cbn [fst snd] in Sh.
+  intros c ls t ls' p E. pose proof (LP.next_action_shape c ls t) as Sh. rewrite E in Sh. cbn [fst snd] in Sh.
   inversion Sh; subst; try discriminate.
   match goal with H1 : L.cands ls = (?d, _) :: _ |- _ => split; [exists d; exact H1 |] end. tauto.
 Qed.
@@ -879,14 +879,14 @@ Qed.
 
 Lemma OInv_send : forall s seen q lk qr c ls ls' p s2,
   OInv s seen -> aget q (eng s) = Some (QLookup lk qr c ls) ->
-  L.next_action c ls 0 = (ls', L.ASend p) ->
+  L.next_action c ls (now s) = (ls', L.ASend p) ->
   eng s2 = eng (set_q s q (QLookup lk qr c ls')) -> futs s2 = futs s ->
   (forall k q0 p0, (cnt s2 k q0 p0 <= cnt s k q0 p0 + hit k q0 p0 p (mkAct AFind q))%nat) ->
   OInv s2 seen.
 Proof.
   intros s seen q lk qr c ls ls' p s2 HI Eq En Ee Ef Hc. pose proof HI as [H1 H2 H3 H4 H5 H6 H7].
   destruct (H5 q _ _ _ _ Eq) as (K1 & K2 & K3).
-  destruct (next_send_full _ _ _ _ En) as ((d & Ec) & Ep & Eqd & Er).
+  destruct (next_send_full _ _ _ _ _ En) as ((d & Ec) & Ep & Eqd & Er).
   assert (Hnv : ~ visited ls p).
   { destruct (LP.i_cfresh _ _ _ _ (l1_inv _ _ K1) (d, p)) as (A & B & _); [rewrite Ec; left; reflexivity |].
     cbn [snd] in *. intros [V | V]; tauto. }
@@ -910,7 +910,7 @@ Proof.
   - intros f. rewrite Ef. apply H4.
   - intros q0 lk0 qr0 c0 ls0 A. destruct (N.eq_dec q0 q) as [E | E].
     + subst q0. rewrite Ee, set_q_get, N.eqb_refl, Eq in A. cbn [option_map] in A. inversion A. subst lk0 qr0 c0 ls0.
-      split; [replace ls' with (fst (L.next_action c ls 0)) by (rewrite En; reflexivity); apply LI1_next; exact K1 |]. split.
+      split; [replace ls' with (fst (L.next_action c ls (now s))) by (rewrite En; reflexivity); apply LI1_next; exact K1 |]. split.
       * intros p0 K. specialize (Hc true q p0). rewrite hit_find in Hc.
         destruct (N.eq_dec p0 p) as [E1 | E1].
         -- subst p0. split.
@@ -1031,7 +1031,7 @@ Proof.
   destruct (aget q (eng s)) as [[lk qr c ls | qr ps | pv pd n need] |] eqn:Eq; cbn [fst]; [| | | exact HI].
   - assert (Lq : live q s = true) by (unfold live; rewrite Eq; reflexivity).
     destruct (oi_lk _ _ HI q _ _ _ _ Eq) as (K1 & K2 & K3).
-    destruct (L.next_action c ls 0) as [ls' a] eqn:En. destruct a as [| p | | l | p r | | l]; cbn [fst].
+    destruct (L.next_action c ls (now s)) as [ls' a] eqn:En. destruct a as [| p | | l | p r | | l]; cbn [fst].
     + exact HI.
     + pose proof (open_or_dial_eng (set_q s q (QLookup lk qr c ls')) p (mkAct AFind q)) as E1.
       pose proof (futs_open_or_dial (set_q s q (QLookup lk qr c ls')) p (mkAct AFind q)) as E2.
@@ -1045,16 +1045,16 @@ Proof.
       * intros q0 K. rewrite live_eng_fail in K. exact K.
       * eapply futs_ok_same; [apply futs_same_glue; apply eng_fail_glue | apply (oi_futs _ _ I2)].
     + apply OInv_del. exact HI.
-    + assert (El : l = map snd (L.resps ls)) by (apply (next_found c ls 0); rewrite En; reflexivity).
+    + assert (El : l = map snd (L.resps ls)) by (apply (next_found c ls (now s)); rewrite En; reflexivity).
       assert (Trk : forall pv, OInv (start_track (del_q s q) pv q l qr) seen).
       { intro pv. apply OInv_track; [exact HI | exact Lq | subst l; eapply resps_nodup; exact K1 | exact K3 |].
         intros p Hp. destruct (cnt s true q p) eqn:E0; [reflexivity |]. exfalso.
         destruct (K2 p) as [_ V]; [lia |]. apply V. subst l. exact Hp. }
       destruct lk; first [apply OInv_del; exact HI | apply Trk].
     + (* partial result: only the record queue changes *)
-      destruct (next_partial_shape _ _ _ _ _ En) as [Hd Hp].
+      destruct (next_partial_shape _ _ _ _ _ _ En) as [Hd Hp].
       assert (Hq : L.queried ls' = L.queried ls /\ L.resps ls' = L.resps ls).
-      { pose proof (LP.next_action_shape c ls 0) as Sh. rewrite En in Sh. cbn [fst snd] in Sh.
+      { pose proof (LP.next_action_shape c ls (now s)) as Sh. rewrite En in Sh. cbn [fst snd] in Sh.
         inversion Sh; subst; try discriminate; tauto. }
       destruct Hq as [Hq Hr]. pose proof HI as [H1 H2 H3 H4 H5 H6 H7].
       assert (Ce : forall k q0 p0, cnt (set_q s q (QLookup lk qr c ls')) k q0 p0 = cnt s k q0 p0) by reflexivity.
@@ -1062,7 +1062,7 @@ Proof.
       * intros q0 K. rewrite live_set_q in K. apply H3. exact K.
       * intros q0 lk0 qr0 c0 ls0. rewrite set_q_get. destruct (N.eqb_spec q0 q) as [E | E].
         -- subst q0. rewrite Eq. cbn [option_map]. intro A. inversion A. subst.
-           split; [replace ls0 with (fst (L.next_action c0 ls 0)) by (rewrite En; reflexivity); apply LI1_next; exact K1 |].
+           split; [replace ls0 with (fst (L.next_action c0 ls (now s))) by (rewrite En; reflexivity); apply LI1_next; exact K1 |].
            split; [| exact K3]. intros p0 K. destruct (K2 p0 K) as [V1 V2]. unfold visited. rewrite Hp, Hq, Hr. tauto.
         -- apply H5.
       * intros q0 qr0 ps. rewrite set_q_get. destruct (N.eqb_spec q0 q) as [E | E]; [subst q0; rewrite Eq; discriminate | apply H6].
@@ -1177,6 +1177,7 @@ Proof.
     + unfold on_inbound_substream. apply futs_ok_add; [left; reflexivity |].
       destruct (aget p (peers s)); apply (oi_futs _ _ HI).
   - pose proof (OInv_on_future g s seen id r HI) as F. destruct (on_future g s id r) as [s' o]. exact F.
+  - apply Rel; [apply cnt_le_conv; reflexivity | apply erel_eng; [exact Q1 | reflexivity] | apply live_same_eng; reflexivity | reflexivity].
 Qed.
 
 Fixpoint cmds_ok (g : gcfg) (es : list ev) : Prop :=
